@@ -15,8 +15,9 @@ from vlib.proto import hexs, unhex
 from checks import fuzzgen as G
 
 LEAN_TARGETS = ["LyModel.Props.C05", "LyModel.Props.C05JsonNum"]
-AUDIT = "Audit/C05.lean"
+AUDIT = ["Audit/C05.lean", "Audit/C05Fn.lean"]
 GENERATED = ["Consts", "LexConsts"]
+LEAN_TARGETS += ["LyModel.Props.C05Fn"]; GENERATED += ["FnUtf8"]     # functions translated from the C source (tools/c2lean.py), bridged in lean/LyModel/Bridge
 ASSUMPTIONS = [
     "the theorems are about the Lean buffer-program models; the models are tied to src/json.c, src/xml.c, src/ly_common.c by the white-box "
     "correspondence (wb_jsonnum, wb_text) on every run",
@@ -760,6 +761,7 @@ def run_lex_models(cx):
 
 
 def run(cx):
+    from checks import fncomp; fncomp.run_fn(cx, ['utf8'])
     run_jsonnum(cx)
     run_lex_models(cx)
     run_api(cx)
